@@ -2,7 +2,7 @@
 (filter-clean) setting that starts with the row's prefix; data object of `size` bytes with the field map
 of struct crypt_data and an arbitrary base alignment.  Shared by C04 and C06."""
 import json, os, time
-from . import common, front, xai
+from . import common, front, xai, unit_contracts
 from .report import AnalysisBroken
 
 CLEAN = frozenset(c for c in range(0x21, 0x7f) if chr(c) not in ":;*!\\")
@@ -57,6 +57,8 @@ CONTRACTS = {
     "yescrypt_kdf": [R(2, 3), R(4, 5), R(6), W(7, len_=8), {"op": "ret", "lo": -1, "hi": 0}],
     "check_badsalt_chars": [{"op": "ret", "lo": 0, "hi": 1}],
 }
+# parsing helpers of yescrypt: contracts that every run verifies against the real bodies (vlib/unit_contracts.py)
+CONTRACTS.update(unit_contracts.CONTRACTS)
 
 FIELDS = [("output", 0, 384, True), ("setting", 384, 768, False), ("input", 768, 1280, False),
           ("reserved", 1280, 2047, True), ("initialized", 2047, 2048, True), ("internal", 2048, 32768, True)]
@@ -97,8 +99,7 @@ def crypt_cell(cid, entry, prefix, tailset=None, phrase_len=(0, (1 << 31) - 1), 
 
 # methods whose crypt path the interpreter cannot yet explore within budget (path explosion in the
 # yescrypt parameter/salt parser); they are reported as NOT covered, never as proved
-UNCOVERED = {"$y$": "yescrypt_r parameter and salt decoding: path explosion (not analysed)",
-             "$gy$": "gost-yescrypt wraps yescrypt_r (not analysed)"}
+UNCOVERED = {"$gy$": "gost-yescrypt copies the variable-length setting into its scratch area and re-parses yescrypt's result there: string lengths inside the data object need a relational domain (not analysed)"}
 
 
 def build_cells(m, tier):
